@@ -435,7 +435,16 @@ func (idx *indexer) restartIndex() error {
 	idx.stop()
 	defer idx.resume()
 
-	opts := idx.index.GetOptions()
+	// GetOptions leaves out the buffered-data limit and the flush callback that gives the buffered-data
+	// budget back to the store: without them the indexer stalls for good once MaxGlobalBufferedDataSize
+	// bytes were indexed after a compaction. (It also leaves out the shared node cache, on purpose or not:
+	// the reopened tree must not find the nodes of the tree it replaces under its own identifier.)
+	store := idx.store
+	opts := idx.index.GetOptions().
+		WithMaxBufferedDataSize(store.opts.IndexOpts.MaxBufferedDataSize).
+		WithOnFlushFunc(func(releasedDataSize int) {
+			store.memSemaphore.Release(uint64(releasedDataSize))
+		})
 
 	prevTs := idx.index.Ts()
 
